@@ -564,8 +564,9 @@ func (t *Target) gnmiUpdate(n *pb.Notification) (*ctree.Leaf, error) {
 			}
 		}
 		oldval.Update(n)
-		// Simulate event-driven for all non-atomic updates.
-		if !n.Atomic && value.Equal(old.Update[0].Val, n.Update[0].Val) && t.eventDriven {
+		// Simulate event-driven for all non-atomic updates. A scalar replacing an
+		// atomic container is a change whatever the container's first value is.
+		if !n.Atomic && !old.GetAtomic() && value.Equal(old.Update[0].Val, n.Update[0].Val) && t.eventDriven {
 			t.meta.AddInt(metadata.SuppressedCount, 1)
 			return nil, nil
 		}
